@@ -210,7 +210,10 @@ pub fn withdraw_with_reserve(
         messages.push(execute_insurance_fund_withdrawal(deps, shortfall).unwrap());
     }
 
-    messages.push(execute_transfer(deps.storage, receiver, amount).unwrap());
+    // nothing to pay out (e.g. a liquidation fee that rounds down to zero)
+    if !amount.is_zero() {
+        messages.push(execute_transfer(deps.storage, receiver, amount).unwrap());
+    }
 
     Ok(messages)
 }
